@@ -8,6 +8,7 @@ import Daac.Spec
 import Daac.Model.Search
 import Daac.Model.Build
 import Daac.Model.Serial
+import Daac.Model.Stats
 import Daac.Inv
 import Daac.InvExtra
 import Daac.Gen.Consts
@@ -401,6 +402,8 @@ def checkCase (env : Env) (c : Case) : Env × Array String := Id.run do
       if heap < szSt * da.numStates then a := a.prop "C15" c.id s!"heap_bytes={heap} < {szSt} * num_states"
       if heap < szSt * elems + szOut * da.outputs.size then
         a := a.prop "C15" c.id s!"heap_bytes={heap} smaller than its tables"
+      if elems != da.numElements then a := a.corr "K-stats" c.id s!"num_elements impl={elems} model={da.numElements}"
+      if heap != da.heapBytes szSt szOut then a := a.corr "K-stats" c.id s!"heap_bytes impl={heap} model={da.heapBytes szSt szOut}"
     | none => pure ()
     -- C14 flags
     match c.det with
